@@ -59,6 +59,15 @@ fn main() {
         checks::c08::worker_main(&args[2..]);
         return;
     }
+    if args.len() >= 4 && args[1] == "genprog" {
+        let (t, f) = checks::c01::generated_program(args[2].parse().unwrap_or(1), args[3].parse().unwrap_or(0));
+        println!("// features: {:?}\n{}", f, t);
+        return;
+    }
+    if args.len() >= 3 && args[1] == "dump" {
+        dump(&args[2]);
+        return;
+    }
     if args.len() < 3 {
         eprintln!("usage: verif-harness <ID> quick|thorough | <ID> --replay <path>");
         std::process::exit(2);
@@ -280,4 +289,40 @@ fn load_known(vdir: &std::path::Path, id: &str) -> Vec<Json> {
         }
     }
     out
+}
+
+/// Developer aid: print what rssl makes of a file (IR of every function, HLSL and MSL output)
+fn dump(path: &str) {
+    par::install_panic_hook();
+    let text = std::fs::read_to_string(path).expect("read");
+    match rs::front_text(&text, true) {
+        rs::Front::Ok((_ast, Some(ir))) => {
+            for id in ir.function_registry.iter() {
+                if let Some(imp) = ir.function_registry.get_function_implementation(id) {
+                    println!("== fn {} {:?}", ir.function_registry.get_function_name(id), ir.function_registry.get_function_signature(id));
+                    for p in &imp.params {
+                        println!("   param {:?}", p);
+                    }
+                    for st in &imp.scope_block.0 {
+                        println!("   {:?}", st.kind);
+                    }
+                }
+            }
+            for (i, g) in ir.global_registry.iter().enumerate() {
+                if !g.is_intrinsic {
+                    println!("== global {} {} : {} init={:?} constexpr={:?}", i, g.name.node, ir.get_type_name_short(g.type_id), g.init, g.constexpr_value);
+                }
+            }
+        }
+        rs::Front::Ok(_) => {}
+        rs::Front::Diag(d) => println!("front end: {}", d),
+        rs::Front::Panic(c) => println!("front end PANIC {:?}", c),
+    }
+    for t in [rs::Tgt::Dx, rs::Tgt::Msl] {
+        let o = rs::compile_text(&text, &rs::Opts::new(t, rs::Mode::NoPipeline));
+        match &o {
+            rs::Outcome::Ok(p) => println!("---- {} ----\n{}", t.name(), p[0].source),
+            _ => println!("---- {} ---- {}", t.name(), o.brief()),
+        }
+    }
 }
